@@ -32,7 +32,7 @@ class C17(BaseCheck):
           'tick right after the call; Unwrap chains of '
           'depth 0-6 with failure at each level and every completion order; ContinueWith/Map '
           'with raising continuations (Exception, a BaseException subclass, gevent.Timeout), before/after completion, on_hub or not. The spec is '
-          'evaluated after every completion step with the loop run to idle. non-trivial = at '
+          'evaluated after every completion step with the loop run to idle; an exception escaping from the combinator call itself is a violation. non-trivial = at '
           'least one step checked; distinct by (combinator, n, assignment)')
   ANCHORS = ('scales.asynchronous:AsyncResult.WhenAll', 'scales.asynchronous:AsyncResult.WhenAny',
              'scales.asynchronous:AsyncResult._UnwrapHelper',
@@ -190,7 +190,14 @@ class C17(BaseCheck):
           for i in pre:
             self._complete(ars[i], i, outcomes[i])
           env.settle()
-          ret = AsyncResult.WhenAll(ars) if kind == 'WhenAll' else AsyncResult.WhenAny(ars)
+          try:
+            ret = AsyncResult.WhenAll(ars) if kind == 'WhenAll' else AsyncResult.WhenAny(ars)
+          except BaseException as e:  # noqa: whatever the inputs' states, the call returns a result
+            out.obligations += 1
+            out.violate(kind + ':raised-to-caller', '%s itself raised %s(%s) for outcomes %r with %r complete at the call' % (
+              kind, type(e).__name__, e, outcomes, list(pre)), {'combinator': kind})
+            bad = True
+            break
           ctx = {'n': n, 'outcomes': outcomes, 'pre': list(pre), 'post': list(post), 'ticks': [list(g_) for g_ in groups],
                  'yield_after_call': yield_after_call, 'pre_failed': any(outcomes[i] == 'F' for i in pre)}
           done = list(pre)
@@ -286,7 +293,16 @@ class C17(BaseCheck):
       if pre:
         self._complete(src, 0, outcome)
         env.settle()
-      ret = src.ContinueWith(fn, on_hub=on_hub)
+      try:
+        ret = src.ContinueWith(fn, on_hub=on_hub)
+      except BaseException as e:  # noqa: the continuation's exception belongs in the returned result
+        out.obligations += 1
+        out.violate('ContinueWith:raised-to-caller', 'ContinueWith itself raised %s(%s) instead of capturing it in the result '
+                    'it returns' % (type(e).__name__, e), {'combinator': kind, 'pre': pre, 'on_hub': on_hub}, spec_s)
+        out.sig = (kind, on_hub, spec_s, pre)
+        out.nontrivial = True
+        out.classes = [kind]
+        return out
       if not pre:
         env.settle()
         out.obligations += 1
@@ -330,7 +346,16 @@ class C17(BaseCheck):
       if pre:
         self._complete(src, 0, outcome)
         env.settle()
-      ret = src.Map(fn)
+      try:
+        ret = src.Map(fn)
+      except BaseException as e:  # noqa
+        out.obligations += 1
+        out.violate('Map:raised-to-caller', 'Map itself raised %s(%s) instead of returning a failed result' % (
+          type(e).__name__, e), {'combinator': kind, 'pre': pre}, spec_s)
+        out.sig = (kind, spec_s, pre)
+        out.nontrivial = True
+        out.classes = [kind]
+        return out
       if not pre:
         env.settle()
         out.obligations += 1
